@@ -132,7 +132,7 @@ func runCase(c Case) M {
 					}
 					b, i := 0, 0
 					if n, isNode := s.Object().(*osm.Node); isNode {
-						b, i = fi.Pos(int64(n.ID))
+						b, i = posOf(fi, n)
 					}
 					sc.NoteX("c.ret", M{"ok": true, "blk": b, "idx": i,
 						"cur": fi.AbsOff(s.FullyScannedBytes()), "prev": fi.AbsOff(s.PreviousFullyScannedBytes())})
@@ -420,6 +420,22 @@ func jitterHook() func(string, int, interface{}, int64, int64) {
 	}
 }
 
+// intact: the node carries exactly the contents its id is rendered with (pbfmini.FieldsOf) -- version, timestamp,
+// changeset, user id and name, its one tag.  The rendering is a function of the id, so this is a symbol map, not an expectation.
+func intact(n *osm.Node) bool {
+	f := pbfmini.FieldsOf(int64(n.ID))
+	return n.Version == f.Version && n.Timestamp.Unix() == f.TS && int64(n.ChangesetID) == f.CS && int64(n.UserID) == f.UID &&
+		n.User == f.User && len(n.Tags) == 1 && n.Tags[0].Key == f.Key && n.Tags[0].Value == f.Val
+}
+
+// posOf: abstract position <<block, index>> of a returned node; <<-1, -1>> when it is not the intact element of that id.
+func posOf(fi pbfmini.File, n *osm.Node) (int, int) {
+	if !intact(n) {
+		return -1, -1
+	}
+	return fi.Pos(int64(n.ID))
+}
+
 type snap struct {
 	n        *osm.Node
 	id       osm.NodeID
@@ -504,7 +520,7 @@ func runJitter(c Case) M {
 					b, i := 0, 0
 					n, isNode := s.Object().(*osm.Node)
 					if isNode {
-						b, i = fi.Pos(int64(n.ID))
+						b, i = posOf(fi, n)
 					}
 					hi := logH(M{"op": "ret", "ok": true, "blk": b, "idx": i, "cur": cur, "prev": prev})
 					if isNode {
@@ -552,7 +568,7 @@ func runJitter(c Case) M {
 	mu.Lock()
 	// an object the consumer retained must still be what it was when returned
 	for _, sn := range snaps {
-		if sn.n.ID != sn.id || sn.n.Lat != sn.lat || sn.n.Lon != sn.lon || sn.n.Version != sn.version {
+		if sn.n.ID != sn.id || sn.n.Lat != sn.lat || sn.n.Lon != sn.lon || sn.n.Version != sn.version || !intact(sn.n) {
 			hs[sn.hIndex].m["blk"], hs[sn.hIndex].m["idx"] = -1, -1
 		}
 	}
@@ -596,7 +612,7 @@ func scanAll(fi pbfmini.File, data []byte, procs int, variant int) ([]M, string)
 		}
 		b, i := 0, 0
 		if n, isNode := s.Object().(*osm.Node); isNode {
-			b, i = fi.Pos(int64(n.ID))
+			b, i = posOf(fi, n)
 		}
 		H = append(H, M{"op": "ret", "ok": true, "blk": b, "idx": i, "cur": cur, "prev": prev, "curbytes": s.FullyScannedBytes()})
 	}
@@ -705,7 +721,7 @@ func runBig(c Case) M {
 			if !ok {
 				continue
 			}
-			fmt.Fprintf(h, "%d|%.7f|%.7f|%d;", nd.ID, nd.Lat, nd.Lon, nd.Version)
+			fmt.Fprintf(h, "%d|%.7f|%.7f|%d|%s|%v|%v;", nd.ID, nd.Lat, nd.Lon, nd.Version, nd.User, nd.Tags, intact(nd))
 			if count%4099 == 0 {
 				probes = append(probes, int64(nd.ID)-fi.FirstID[0])
 				kept = append(kept, nd)
@@ -714,7 +730,7 @@ func runBig(c Case) M {
 		}
 		stable := true
 		for i, nd := range kept { // retained objects are still what they were
-			if int64(nd.ID)-fi.FirstID[0] != probes[i] {
+			if int64(nd.ID)-fi.FirstID[0] != probes[i] || !intact(nd) {
 				stable = false
 			}
 		}
